@@ -154,6 +154,10 @@ def c01_runs(tier, seed):
         out["coverage"]["proxy_level_families"].append({k: r[k] for k in ("family", "behaviours", "lines", "consumed")})
         for p in r["problems"]:
             if "C01" in p["props"]:
+                from props.proxycommon import confirmed
+                if not confirmed(f, p, "C01"):
+                    out["notes"].append("proxy family %s: a mismatch at line %d did not reproduce when replayed alone; not counted" % (f["name"], p["line"]))
+                    continue
                 out["violations"].append(vlib.save_replay("C01", "%s-%s-seed%d.json" % (f["name"], vlib.digest(p["replay_input"]), seed),
                                                           {"kind": "proxydrv", "problem": {k: p[k] for k in ("props", "cats", "line", "event", "context", "kind")},
                                                            "input": p["replay_input"]}))
